@@ -14,7 +14,7 @@ ASSUMPTIONS = ["the differential comparisons are tests (they exhibit failing inp
                "running code by the observed process state"]
 
 HERE = os.path.dirname(os.path.dirname(os.path.abspath(__file__)))
-KINDS = ["stock", "future", "mixed", "t0", "noreinvest", "fail", "analyser", "initpos", "rebalance"]
+KINDS = ["stock", "future", "mixed", "t0", "noreinvest", "fail", "analyser", "initpos", "rebalance", "splithold"]
 
 
 def run_job(specs, switches, hashseed):
@@ -33,14 +33,16 @@ def run(ctx):
     corr = ctx.corr("process state", "class-level switches, rqalpha.api bindings of per-run objects, bundle that answers order-API look-ups and the Environment singleton as observed by "
                                      "each run of a multi-run process vs model `runOnce` folded over the same sequence with the flags regenerated from the source")
     corr_r = ctx.corr("renumber", "identifier renumbering of the canonical traces vs model `renumber`")
-    n_targets = ctx.n(5, 60)
+    n_targets = ctx.n(6, 60)
     jobs = []
     for t in range(n_targets):
-        kind = ["stock", "future", "rebalance", "t0", "initpos"][t] if t < 5 else rnd.choice(["stock", "future", "mixed", "t0", "noreinvest", "analyser", "initpos", "rebalance"])
+        kind = ["stock", "future", "rebalance", "t0", "initpos", "decsell"][t] if t < 6 else rnd.choice(["stock", "future", "mixed", "t0", "noreinvest", "analyser", "initpos", "rebalance", "decsell"])
         x = {"seed": rnd.randrange(1, 10 ** 6), "kind": kind}
         hist = [{"seed": rnd.randrange(1, 10 ** 6), "kind": rnd.choice(KINDS)} for _ in range(rnd.randrange(1, 4))]
         if kind == "initpos":
             hist = [{"seed": rnd.randrange(1, 10 ** 6), "kind": "future"}, {"seed": rnd.randrange(1, 10 ** 6), "kind": "stock"}]   # directed: a futures-trading run earlier in the process
+        if kind == "decsell":
+            hist = [{"seed": rnd.randrange(1, 10 ** 6), "kind": "splithold"}, {"seed": rnd.randrange(1, 10 ** 6), "kind": "stock"}]   # directed: an earlier run carried a holding over a split
         if t == 0:
             hist = [{"seed": rnd.randrange(1, 10 ** 6), "kind": "t0"}, {"seed": rnd.randrange(1, 10 ** 6), "kind": "future"}]      # directed: T+0 then futures-only before a default stock run
         h1, h2 = rnd.randrange(1, 1000), rnd.randrange(1000, 2000)
